@@ -3,6 +3,7 @@ package main
 import (
 	"fmt"
 	"go/token"
+	"go/types"
 	"strings"
 
 	"golang.org/x/tools/go/ssa"
@@ -150,6 +151,37 @@ func mustPrecede(fn *ssa.Function, a, target ssa.Instruction) bool {
 	return okEnum && !violated
 }
 
+// mustPrecedeAny: every feasible path from entry to target passes at least one of the instructions in as.
+func mustPrecedeAny(fn *ssa.Function, as []ssa.Instruction, target ssa.Instruction) bool {
+	set := map[ssa.Instruction]bool{}
+	for _, a := range as {
+		set[a] = true
+	}
+	if _, ok := pathFromEntryAvoiding(fn, func(in ssa.Instruction) bool { return in == target }, func(in ssa.Instruction) bool { return set[in] }); !ok {
+		return true
+	}
+	violated := false
+	tb := target.Block()
+	okEnum := enumPaths(fn.Blocks[0], func(b *ssa.BasicBlock) bool { return b == tb }, 20000, func(path []*ssa.BasicBlock) {
+		if path[len(path)-1] != tb || violated || !typeTestsConsistent(path) {
+			return
+		}
+		seen := false
+		for _, in := range pathInstrs(path) {
+			if set[in] {
+				seen = true
+			}
+			if in == target {
+				break
+			}
+		}
+		if !seen {
+			violated = true
+		}
+	})
+	return okEnum && !violated
+}
+
 // typeTestsConsistent: along the block path, comma-ok type assertions on the same operand have
 // compatible outcomes.
 func typeTestsConsistent(path []*ssa.BasicBlock) bool {
@@ -218,6 +250,11 @@ var specSig = []string{"run(arg0)", "const:253", "B(len(MSG.Payload),0)", "V(rec
 
 func runC06(c *Ctx) {
 	r := c.R
+	defer func() {
+		r.Rule("R6.5", "what is signed is what is written (= R8.1): frame.Writer.Write, which the signing originators hand their finished frame to, modifies or re-encodes a frame only when its message is not yet raw; "+
+			"a frame that already carries its encoded payload, checksum and signature is marshalled as it is", 1)
+		ruleRawPassthrough(c, "R6.5")
+	}()
 	r.NotDecided = append(r.NotDecided,
 		"unforgeability (SHA-256 is trusted)",
 		"'altered in any bit' as an enumeration: it follows from R6.1 (every wire byte is in the pre-image) + R6.2, which is what is checked")
@@ -967,6 +1004,25 @@ func runC09(c *Ctx) {
 			}
 			r.Check(len(probs) == 0, "R9.4", key, c.Pos(cs.st.Pos()), "GenerateChecksum(CRCExtra of the frame's own codec), after encoding", strings.Join(probs, "; "))
 		}
+		// on every feasible path to the hand-over a checksum has been computed (an originated frame never leaves with
+		// the zero value or a stale checksum, whatever its message looked like when it was handed in)
+		if o.handover != "" {
+			var sums []ssa.Instruction
+			for i := range fs {
+				if fs[i].field == "Checksum" {
+					sums = append(sums, fs[i].st)
+				}
+			}
+			hs, _ := handoverOf(fn, o)
+			okAll := len(hs) > 0
+			for _, h := range hs {
+				if !mustPrecedeAny(fn, sums, h) {
+					okAll = false
+				}
+			}
+			r.Check(okAll, "R9.4", o.name+" checksum on every path", c.Pos(fn.Pos()), "every path to the hand-over computes the checksum",
+				"a path reaches the hand-over without the checksum having been computed (e.g. a message that is already raw skips it): the originated frame leaves with checksum 0 or a stale one")
+		}
 		if !o.fills {
 			continue
 		}
@@ -1123,6 +1179,42 @@ func runC09(c *Ctx) {
 			}
 			r.Check(ok, "R9.5", key, c.Pos(ci.Pos()), "isV2 = "+isv2, "the protocol version passed to the message encoder ("+isv2+") is not derived from the frame being encoded / the configured output version")
 		}
+	}
+	// Node.encodeMessage delegating to encodeFrame through a temporary frame: the frame kind must follow OutVersion
+	if em := c.FnOpt("root", "Node.encodeMessage"); em != nil && len(callsNamed(em, "(message.ReadWriter).Write")) == 0 {
+		nSites++
+		kinds := map[string]bool{}
+		for _, ci := range callsNamed(em, "(gomavlib.Node).encodeFrame") {
+			var walk func(v ssa.Value, d int)
+			walk = func(v ssa.Value, d int) {
+				if d > 4 {
+					return
+				}
+				switch x := v.(type) {
+				case *ssa.MakeInterface:
+					walk(x.X, d+1)
+				case *ssa.Phi:
+					for _, e := range x.Edges {
+						walk(e, d+1)
+					}
+				case *ssa.Alloc:
+					kinds[typeStr(x.Type().(*types.Pointer).Elem())] = true
+				}
+			}
+			walk(ci.Common().Args[1], 0)
+		}
+		byVersion := false
+		for _, iff := range ifsIn(em) {
+			if _, _, hit := succWhen(iff, "(recv.OutVersion == 2)"); hit {
+				byVersion = true
+			}
+			if _, _, hit := succWhen(iff, "(recv.OutVersion == 1)"); hit {
+				byVersion = true
+			}
+		}
+		ok := kinds["frame.V1Frame"] && kinds["frame.V2Frame"] && byVersion
+		r.Check(ok, "R9.5", "Node.encodeMessage mp.Write isV2", c.Pos(em.Pos()), "temporary frame kind selected by OutVersion",
+			fmt.Sprintf("originated messages are encoded through a temporary frame of kind %v that does not follow the configured OutVersion: a version-1 node emits extension fields / zero-truncated payloads inside v1 frames", keysOf(kinds)))
 	}
 	if nSites < 4 {
 		r.Broken("R9.5", "mp.Write sites", fmt.Sprintf("only %d encode sites found", nSites))
